@@ -23,6 +23,7 @@ EXPLANATION = (
     "(X, affinity) exactly once; (e) the mlcl wrapper drives the wrapped generator with arange(len(X)), stores the yielded "
     "sample ids before yielding X[ids] and the untouched affinity block; (f) the validation score uses sequential blocks, the "
     "same slice on rows and columns, weights len(block) and divides by len(X).")
+ADOPT = [("C12", ["C12-a"], "batch_size (like every hyper-parameter) reaches _batchify only if the constructor stores or forwards it")]
 ASSUMPTIONS = ["RandomState.permutation(n) returns a permutation of range(n)", "numpy basic/advanced indexing semantics",
                "batch_size >= 1 by the validated constraint"]
 
@@ -180,7 +181,7 @@ def _same(a, b):
 def run(pm, ctx):
     ctx.rule("C10-a", "batches must be disjoint, cover every sample once and hold at most batch_size rows", floor=3)
     ctx.rule("C10-b", "the affinity block must be the rows and columns of the batch's own samples, in the same order", floor=4)
-    ctx.rule("C10-c", "max_iter epochs, one optimiser step per batch, affinity computed from the trained data", floor=3)
+    ctx.rule("C10-c", "max_iter epochs, one optimiser step per batch, affinity computed from the trained data", floor=5)
     ctx.rule("C10-d", "nonparametric models see the full data exactly once per epoch", floor=1)
     ctx.rule("C10-e", "constraint decoration must keep the batching and record the true sample ids of each batch", floor=3)
     ctx.rule("C10-f", "the validation score is the block-size weighted mean over a partition into aligned blocks", floor=4)
@@ -243,9 +244,24 @@ def run(pm, ctx):
             ad = defn(ab)
             arr = [d for d in ad if isinstance(d, ast.Assign) and not (isinstance(d.value, ast.Constant) and d.value.value is None)]
             non = [d for d in ad if isinstance(d, ast.Assign) and isinstance(d.value, ast.Constant) and d.value.value is None]
-            if not (len(arr) == 1 and norm_src(arr[0].value) in (f"affinity_matrix[{iv}][:, {iv}]", f"affinity_matrix[np.ix_({iv}, {iv})]", f"affinity_matrix[{iv}, :][:, {iv}]")):
+            good = {f"affinity_matrix[{iv}][:, {iv}]", f"affinity_matrix[np.ix_({iv}, {iv})]", f"affinity_matrix[{iv}, :][:, {iv}]", f"affinity_matrix[:, {iv}][{iv}]",
+                    f"affinity_matrix[:, {iv}][{iv}, :]", f"affinity_matrix[{iv}[:, None], {iv}]", f"affinity_matrix[{iv}[:, np.newaxis], {iv}]",
+                    f"affinity_matrix[{iv}.reshape((-1, 1)), {iv}]", f"affinity_matrix[{iv}[:, None], {iv}[None, :]]"}
+            asrc = norm_src(arr[0].value) if len(arr) == 1 else None
+            if asrc in good:
+                pass
+            elif asrc in (f"affinity_matrix[{iv}, {iv}[:, None]]", f"affinity_matrix[{iv}, {iv}[:, np.newaxis]]", f"affinity_matrix[{iv}[None, :], {iv}[:, None]]",
+                          f"affinity_matrix[{iv}][:, {iv}].T", f"affinity_matrix.T[{iv}][:, {iv}]"):
+                probs.append(f"the affinity block `{asrc}` is the TRANSPOSE of the batch's block (entry (p, q) is A[idx[q], idx[p]]): wrong for every non-symmetric affinity "
+                             f"(a precomputed or callable one)")
+            elif asrc is not None and (asrc == f"affinity_matrix[{iv}]" or asrc.count(iv) < 2 or any(
+                    isinstance(n_, ast.Name) and n_.id != iv and n_.id not in ("affinity_matrix", "np", "None") for n_ in ast.walk(arr[0].value))):
                 probs.append(f"the affinity block is not affinity_matrix[{iv}][:, {iv}]")
-            elif not any(isinstance(h, ast.If) and norm_src(h.test) == "affinity_matrix is not None" and br for h, br in cfg.control_conditions(arr[0])):
+            elif asrc is None:
+                probs.append(f"the affinity block is not affinity_matrix[{iv}][:, {iv}]")
+            else:
+                ctx.unrecognised("C10-b", site + " (affinity block)", f"`{asrc[:80]}`")
+            if asrc in good and not any(isinstance(h, ast.If) and norm_src(h.test) == "affinity_matrix is not None" and br for h, br in cfg.control_conditions(arr[0])):
                 probs.append("the affinity block is not guarded by `affinity_matrix is not None`")
             if len(non) != 1:
                 probs.append("no None affinity for GEMINIs without affinity")
@@ -309,6 +325,37 @@ def run(pm, ctx):
                               line=b0.lineno, site=site_s)
         else:
             ctx.unrecognised("C10-c", site_s, f"batches iterate over {norm_src(it)[:60]}")
+    # the same for the training loop of the regularisation path, and: batches are consumed one by one as they are generated
+    for fn_unit, qn_, recv in ((bu, "DiscriminativeModel.fit", "self"), (pm.unit("gemclus.sparse._base_sparse"), "_path", "clf")):
+        fx = fn_unit.func(qn_)
+        cfgx = CFG(fx)
+        loops_x = [n for n in ast.walk(fx) if isinstance(n, ast.For) and any(isinstance(c, ast.Call) and (call_name(c) or "").endswith("._update_weights") for c in ast.walk(n))
+                   and not any(isinstance(m, ast.For) and m is not n and any(isinstance(c, ast.Call) and (call_name(c) or "").endswith("._update_weights") for c in ast.walk(m)) for m in ast.walk(n))]
+        site_m = f"{qn_}: batches are consumed as they are generated"
+        if not loops_x:
+            ctx.unrecognised("C10-c", site_m, "no loop performing optimiser steps")
+            continue
+        for lp in loops_x:
+            it = lp.iter
+            if isinstance(it, ast.Call) and call_name(it) == f"{recv}._batchify":
+                ctx.ok("C10-c", site_m, f"for ... in {recv}._batchify(...)")
+                continue
+            vals = []
+            if isinstance(it, ast.Name):
+                vals = [d.value for d in cfgx.reaching()[lp].get(it.id, ()) if d is not ENTRY and isinstance(d, ast.Assign)]
+            elif isinstance(it, ast.Call):
+                vals = [it]
+            mat = [v for v in vals if (isinstance(v, ast.Call) and call_name(v) in ("list", "tuple", "sorted", "reversed") and v.args and isinstance(v.args[0], ast.Call)
+                                        and call_name(v.args[0]) == f"{recv}._batchify")
+                   or (isinstance(v, (ast.ListComp,)) and any(isinstance(g.iter, ast.Call) and call_name(g.iter) == f"{recv}._batchify" for g in v.generators))]
+            if mat:
+                ctx.violation("C10-c", fn_unit.relpath, qn_, norm_src(mat[0])[:140], f"`{norm_src(mat[0])[:70]}` draws every batch of the epoch before the first one is used: a "
+                              f"_batchify decorated by add_mlcl_constraint records the indices of the batch it hands out, so during training they are those of the LAST batch",
+                              line=mat[0].lineno, site=site_m)
+            elif vals and all(isinstance(v, ast.Call) and call_name(v) == f"{recv}._batchify" for v in vals):
+                ctx.ok("C10-c", site_m, "generator bound to a name and iterated directly")
+            else:
+                ctx.unrecognised("C10-c", site_m, f"batches iterate over {norm_src(it)[:60]}")
     site = "DiscriminativeModel.fit: epochs"
     if len(outer) == 1 and len(inner) == 1 and inner[0] in outer[0].body and len(outer[0].body) == 1:
         upd = [n for n in ast.walk(inner[0]) if isinstance(n, ast.Call) and (call_name(n) or "") == "self._update_weights"]
@@ -524,4 +571,6 @@ def controls(pm, tier):
     mut(S, "affinity = y[j:j+batch_size][:,j:j+batch_size]", "affinity = y[j:j+batch_size][:,:batch_size]", "C10-f", "validation affinity columns misaligned")
     mut(S, "validation_gemini += gemini_objective(y_pred, affinity) * len(X_batch)", "validation_gemini += gemini_objective(y_pred, affinity) * batch_size", "C10-f", "last block over-weighted")
     mut(C, "yield X, affinity_matrix", "yield X, affinity_matrix\n        yield X, affinity_matrix", "C10-d", "nonparametric model trained twice per epoch")
+    mut(B, "affinity_batch = affinity_matrix[batch_indices][:, batch_indices]", "affinity_batch = affinity_matrix[batch_indices, batch_indices[:, None]]", "C10-b", "transposed affinity block")
+    mut("gemclus.sparse._base_sparse", "            for X_batch, affinity_batch in clf._batchify(X, affinity, generator):", "            batches = list(clf._batchify(X, affinity, generator))\n            for X_batch, affinity_batch in batches:", "C10-c", "path materialises the batches of an epoch")
     return out
